@@ -103,6 +103,8 @@ pub enum Step {
     AddRule { ctype: CType, until: Until, signers: std::vec::Vec<SRef>, policies: std::vec::Vec<u8> },
     RemoveRule { id: u32 },
     SetUntil { id: u32, until: Until },
+    /// update_context_rule_name: only the name may change (tag = which name)
+    Rename { id: u32, tag: u8 },
     AddSigner { id: u32, s: SRef },
     RemoveSigner { id: u32, s: SRef },
     AddPolicy { id: u32, p: u8 },
@@ -117,10 +119,12 @@ pub struct Cfg {
     pub actors: usize,
 }
 const ADMIN: SRef = SRef::Ext(99);
+const NAMES: [&str; 5] = ["r", "renamed-a", "renamed-b", "renamed-c", "multisig"];
 const N_POL: u8 = 3;
 
 #[derive(Clone, Debug)]
 struct Rule {
+    name: u8,
     id: u32,
     ctype: CType,
     until: Option<u32>,
@@ -200,7 +204,7 @@ impl Model {
                 if self.rules.len() >= 15 || sset.len() != signers.len() || pset.len() != policies.len() || u.map(|x| x < self.now).unwrap_or(false) || signers.len() > 15 || policies.len() > 5 || (signers.is_empty() && policies.is_empty()) {
                     return false;
                 }
-                let r = Rule { id: self.next_id, ctype: *ctype, until: u, signers: signers.clone(), policies: policies.clone() };
+                let r = Rule { name: 0, id: self.next_id, ctype: *ctype, until: u, signers: signers.clone(), policies: policies.clone() };
                 if self.rules.iter().any(|x| Self::fp(x) == Self::fp(&r)) {
                     return false;
                 }
@@ -211,6 +215,11 @@ impl Model {
             Step::RemoveRule { id } => {
                 let Some(p) = self.rules.iter().position(|r| r.id == *id) else { return false };
                 self.rules.remove(p);
+                true
+            }
+            Step::Rename { id, tag } => {
+                let Some(r) = self.rules.iter_mut().find(|r| r.id == *id) else { return false };
+                r.name = *tag;
                 true
             }
             Step::SetUntil { id, until } => {
@@ -322,7 +331,7 @@ impl Check for SmartAccount {
         let cfg = Cfg { start_ledger: 1 + rng.below(100_000) as u32, actors: 3 };
         let nsteps = if tier == Tier::Quick { 30 + rng.below(40) } else { 30 + rng.below(80) } as usize;
         let mut m = Model { now: cfg.start_ledger, next_id: 1, ..Default::default() };
-        m.rules.push(Rule { id: 0, ctype: CType::Default, until: None, signers: vec![ADMIN], policies: vec![] });
+        m.rules.push(Rule { name: 4, id: 0, ctype: CType::Default, until: None, signers: vec![ADMIN], policies: vec![] });
         let sref = |rng: &mut Rng| if rng.chance(75) { SRef::Ext(rng.below(6) as u8) } else { SRef::Del(rng.below(3) as usize) };
         let ctype = |rng: &mut Rng| match rng.below(10) {
             0..=2 => CType::Default,
@@ -366,7 +375,8 @@ impl Check for SmartAccount {
                     Step::AddRule { ctype: ctype(rng), until, signers, policies }
                 }
                 18..=22 => Step::RemoveRule { id: some_id(rng) },
-                23..=27 => Step::SetUntil { id: some_id(rng), until: match rng.below(4) { 0 => Until::None, 1 => Until::Rel(-1), _ => Until::Rel(rng.below(15) as i64) } },
+                23..=24 => Step::Rename { id: some_id(rng), tag: 1 + rng.below(3) as u8 },
+                25..=27 => Step::SetUntil { id: some_id(rng), until: match rng.below(4) { 0 => Until::None, 1 => Until::Rel(-1), _ => Until::Rel(rng.below(15) as i64) } },
                 28..=31 => Step::AddSigner { id: some_id(rng), s: sref(rng) },
                 32..=35 => {
                     let id = some_id(rng);
@@ -472,7 +482,7 @@ impl Check for SmartAccount {
             CType::Default => unreachable!(),
         };
         let mut m = Model { now: cfg.start_ledger, next_id: 1, ..Default::default() };
-        m.rules.push(Rule { id: 0, ctype: CType::Default, until: None, signers: vec![ADMIN], policies: vec![] });
+        m.rules.push(Rule { name: 4, id: 0, ctype: CType::Default, until: None, signers: vec![ADMIN], policies: vec![] });
 
         // management call authorised by the admin signer through a real entry for the account
         let mgmt = |f: &'static str, args: Vec<Val>| -> bool {
@@ -517,6 +527,7 @@ impl Check for SmartAccount {
                 }
                 Step::RemoveRule { id } => Some(mgmt("remove_context_rule", (*id,).into_val(e))),
                 Step::SetUntil { id, until } => Some(mgmt("update_context_rule_valid_until", (*id, until.abs(now)).into_val(e))),
+                Step::Rename { id, tag } => Some(mgmt("update_context_rule_name", (*id, SString::from_str(e, NAMES[*tag as usize])).into_val(e))),
                 Step::AddSigner { id, s } => Some(mgmt("add_signer", (*id, signer(*s)).into_val(e))),
                 Step::RemoveSigner { id, s } => Some(mgmt("remove_signer", (*id, signer(*s)).into_val(e))),
                 Step::AddPolicy { id, p } => Some(mgmt("add_policy", (*id, pols[*p as usize].clone(), ()).into_val(e))),
@@ -607,7 +618,7 @@ impl Check for SmartAccount {
                 let want_sg: std::vec::Vec<Signer> = r.signers.iter().map(|x| signer(*x)).collect();
                 let pl: BTreeSet<Address> = got.policies.iter().collect();
                 let want_pl: BTreeSet<Address> = r.policies.iter().map(|p| pols[*p as usize].clone()).collect();
-                if got.id != r.id || got.context_type != ctx_type(r.ctype) || sg != want_sg || pl != want_pl || got.policies.len() as usize != want_pl.len() || got.valid_until != r.until {
+                if got.id != r.id || got.name != SString::from_str(e, NAMES[r.name as usize]) || got.context_type != ctx_type(r.ctype) || sg != want_sg || pl != want_pl || got.policies.len() as usize != want_pl.len() || got.valid_until != r.until {
                     return Err(violation("rules.getters_eq_model", "get_context_rule", i, format!("rule {}: stored definition differs from model {r:?} after {s:?}", r.id)));
                 }
             }
